@@ -213,11 +213,12 @@ def run_impl(case):
             mon_params = None
         obs = {"step": d.step, "ph_threshold": d.ph_threshold, "bins": d.bins, "mon_params": mon_params}
         scaled = False     # are the private windows currently in the scaler's coordinates?
+        cols = [f"f{j}" for j in range(raw.shape[1])] if case.get("container") == "df" else None
         for i in range(len(raw)):
             k0 = len(log.calls)
             was_building = getattr(d, "_build_reference_and_test", None)
             try:
-                d.update(raw[i:i + 1].copy())
+                d.update(pd.DataFrame(raw[i:i + 1].copy(), columns=cols) if cols else raw[i:i + 1].copy())
             except ZeroDivisionError as e:
                 rows.append({"error": "ZeroDivisionError"})
                 break
@@ -277,6 +278,15 @@ def run_impl(case):
                 if tp is not None and len(tp) and not built:
                     row["tproj_last"] = [float(x) for x in tp[-1]]
             rows.append(row)
+        # one more row whose columns are the stream's in another order: it must not be taken positionally (the detector
+        # refuses it); probed after the run so that the history above is unaffected
+        if cols and len(cols) >= 2 and rows and "error" not in rows[-1]:
+            probe = pd.DataFrame(raw[-1:].copy(), columns=cols)[cols[1:] + cols[:1]]
+            try:
+                d.update(probe)
+                obs["perm_probe"] = {"raised": False}
+            except ValueError:
+                obs["perm_probe"] = {"raised": True}
     obs["rows"] = rows
     return obs
 
@@ -525,6 +535,8 @@ def direct_check(case, obs):
         msgs.append(f"ph_threshold = {obs['ph_threshold']!r}, but round(0.01 * window_size) = {sp['thr']}")
     if obs["bins"] != sp["bins"]:
         msgs.append(f"bins = {obs['bins']!r}, but floor(sqrt(window_size)) = {sp['bins']}")
+    if obs.get("perm_probe") is not None and not obs["perm_probe"]["raised"]:
+        msgs.append("a one-row DataFrame whose columns are the stream's in another order was accepted and processed by position")
     mp = obs["mon_params"]
     if mp is not None and not (feq(mp[0], p["delta"]) and mp[1] == sp["thr"] and mp[2] == 0 and mp[3] == "positive"):
         msgs.append(f"embedded Page-Hinkley built with (delta, threshold, burn_in, direction) = {mp}, expected ({p['delta']}, {sp['thr']}, 0, 'positive')")
@@ -771,6 +783,8 @@ def gen_cases(ctx):
     cases = []
     st = ctx.stats
     def add(c):
+        if len(cases) % 3 == 2:
+            c["container"] = "df"        # rows handed over as one-row DataFrames with named columns
         cases.append(c)
         p = c["params"]
         for k, v in (("kind", c["kind"]), ("window", p["window_size"]), ("raw_step_zero", py_round_exact(p["sample_period"] * p["window_size"]) == 0), ("metric", p["divergence_metric"]), ("scaling", p["online_scaling"]),
